@@ -186,7 +186,7 @@ inline Outcome runTridiagCase(const KV& c)
         o.cls("cyclic_flag_restated_between_solves");
     const int relocate = (int)c.getI("relocate", 0);
     if (relocate)
-        o.cls(relocate == 1 ? "relocated_by_move" : "relocated_by_copy");
+        o.cls(relocate == 1 ? "relocated_by_move" : (relocate == 2 ? "relocated_by_copy" : "copy_assigned_onto_solver_of_other_size"));
     std::vector<SymmetricTridiagonalSolver<double>> holder;
     holder.reserve(1);
     holder.emplace_back(n);
@@ -219,6 +219,26 @@ inline Outcome runTridiagCase(const KV& c)
         else if (k == 1 && relocate == 2) {
             SymmetricTridiagonalSolver<double> copy(holder[0]);
             holder[0] = copy;
+        }
+        else if (k == 1 && relocate >= 3) {
+            // the solving object becomes an EXISTING solver of another dimension (larger: 3, smaller: 4) that has already
+            // solved a system of its own and is then copy-assigned the solver under test
+            const int m = relocate == 3 ? n + 3 : std::max(2, n - 1);
+            SymmetricTridiagonalSolver<double> other(m);
+            other.is_cyclic(cyclic);
+            for (int i = 0; i < m; i++)
+                other.main_diagonal(i) = 4.0 + 0.25 * i;
+            for (int i = 0; i + 1 < m; i++)
+                other.sub_diagonal(i) = -1.0;
+            if (cyclic)
+                other.cyclic_corner_element() = 0.5;
+            std::vector<double> y(m, 1.0), u1(m), u2(m);
+            other.solveInPlace(y.data(), u1.data(), cyclic ? u2.data() : nullptr);
+            other = holder[0];
+            std::vector<SymmetricTridiagonalSolver<double>> fresh;
+            fresh.reserve(1);
+            fresh.emplace_back(std::move(other));
+            holder = std::move(fresh);
         }
         SymmetricTridiagonalSolver<double>& S = holder[0];
         if (k >= 1 && restate) {
@@ -426,7 +446,7 @@ inline KV genTridiagCase()
     c.putD("corner", corner);
     c.putI("nrhs", rint(1, 4));
     c.putI("rhs_kind", rint(0, 5));
-    c.putI("relocate", rweighted({4, 1, 1}));
+    c.putI("relocate", rweighted({4, 1, 1, 1, 1}));
     c.putI("restate", rweighted({3, 1}));
     c.putU("rhs_seed", rseed());
     return c;
